@@ -293,6 +293,23 @@ def run(chk, replay=None):
     model = None
     if os.path.exists(FAM.runner):
         model = [norm(l) for l in core.run_lines(FAM.runner, lines, timeout=1500)]
+    # model only: the least depth fuel C16_depth allows (nesting + 1) gives the same result as |s| + 1, and the
+    # nesting measure is what it is meant to be on the texts nested by construction
+    fuel_mism, nest_mism = [], []
+    if model is not None:
+        fidx = [i for i, l in enumerate(lines) if l.startswith("file ")]
+        fmin = [norm(l) for l in core.run_lines(FAM.runner, ["filemin " + lines[i][5:] for i in fidx], timeout=1500)]
+        for i, o in zip(fidx, fmin):
+            if o != model[i]:
+                fuel_mism.append((lines[i], model[i], o))
+        nidx = [i for i, (c, k, d) in enumerate(cases) if k.split("-", 1)[-1] in ("type", "const", "type-open", "const-open", "map-open")
+                and k.split("-")[0] in ("deep", "probe")]
+        nst = core.run_lines(FAM.runner, ["nesting " + lines[i].split(" ", 1)[1] for i in nidx], shards=1)
+        for i, o in zip(nidx, nst):
+            if o != "NEST %d" % cases[i][2]:
+                nest_mism.append((lines[i], cases[i][2], o))
+        chk.cov["min_depth_fuel_runs"] = len(fidx)
+        chk.cov["nesting_measure_checked"] = len(nidx)
     t_model = time.time() - t0
     failing, mism = [], []
     dist_out = Counter()
@@ -349,6 +366,14 @@ def run(chk, replay=None):
                           "no-panic / no-overflow oracle found no failing input" % (len(mism), kind),
                           dict(kind="correspondence", correspondence="idl-parse (fam/idl/coq/Parser.v vs pilota-thrift-parser)",
                                case=c, case_kind=kind, impl_output=o[:2000], model_output=m[:2000], build=prof), no_input=True)
+        if fuel_mism:
+            c, a, b = fuel_mism[0]
+            chk.violation("model: depth fuel nesting+1 and |s|+1 give different results (%d cases)" % len(fuel_mism),
+                          dict(kind="model-fuel", case=c, full_fuel=a[:500], min_fuel=b[:500]), no_input=True)
+        if nest_mism:
+            c, n, o = nest_mism[0]
+            chk.violation("model: the nesting measure of a text nested %d deep by construction is '%s'" % (n, o),
+                          dict(kind="model-nesting", case=c[:300], expected=n, got=o), no_input=True)
         if not gate["ok"]:
             chk.violation("proof obligation broken: %s (%s)" % (gate.get("failed"), (gate.get("error") or "")[:300]),
                           dict(kind="proof", theorem_file="fam/idl/coq/Properties/C16.v", failed=gate.get("failed"),
